@@ -18,6 +18,8 @@ def klass(name):
         return "float"
     if name == "Brepr":
         return "unprintable"
+    if name == "Vobj":
+        return "object"
     if name in ("R12", "M12"):
         return "lazy"
     if name in ("S1", "S2", "S12", "Sf", "Sg"):
